@@ -22,6 +22,8 @@ def main():
     ap.add_argument('--seeds', default='')
     ap.add_argument('--repo', default=os.environ.get('VP_RUN_REPO', ''))
     ap.add_argument('--out', default='seedmatrix.json')
+    ap.add_argument('--part', default='', help='i/n: only the seeds whose index is i modulo n')
+    ap.add_argument('--noclean', action='store_true')
     a = ap.parse_args()
     repo = a.repo
     if not repo or os.path.realpath(repo) == '/repo':
@@ -33,6 +35,9 @@ def main():
     seeds = sorted(glob.glob(os.path.join(HERE, 'seeded', '*')))
     if a.seeds:
         seeds = [s for s in seeds if os.path.basename(s).split('_')[0] in a.seeds.split(',')]
+    if a.part:
+        i, n = (int(v) for v in a.part.split('/'))
+        seeds = [sd for k, sd in enumerate(seeds) if k % n == i]
     env = dict(os.environ, PBV_REPO=repo, PYTHONPATH=repo, VERIF_TIER='quick')
     subprocess.run(['./check', '--setup'], cwd=HERE, env=env)
     result = {}
@@ -47,7 +52,8 @@ def main():
                       'seconds': round(time.time() - t, 1)}
             print(f'{label:34s} {c} exit={p.returncode} violations={len(viol)} {row[c]["seconds"]}s', flush=True)
         return row
-    result['clean'] = run_checks('clean')
+    if not a.noclean:
+        result['clean'] = run_checks('clean')
     for sd in seeds:
         name = os.path.basename(sd)
         patch = os.path.join(sd, 'patch.diff')
